@@ -48,6 +48,7 @@ std::string DecisionString();                        // the decision trace, comp
 size_t NumThreads();
 int StateOf(int tid);
 const void * WaitObjOf(int tid);
+void FailSocketpairs(bool on);                       // fault: while on, socketpair() fails with EMFILE (the process is out of descriptors)
 bool IsAsleep(int tid);                              // blocked in a condition / pthread_cond / poll wait that nothing has made ready (no notification pending, no signal, no readable byte, deadline not reached)
 
 // --- deadline bookkeeping for the "returns by its deadline" oracle (C18): while a thread is inside a timed/try API call the harness
